@@ -10,7 +10,13 @@ use crate::charsets::Charset;
 /// of UTF-8 encoded bytes. The `Read::read_to_string` method can be used to convert
 /// the stream of UTF-8 bytes into a `String`.
 #[derive(Debug)]
-pub struct TextReader<R>(DecodeReaderBytes<R, Vec<u8>>);
+pub struct TextReader<R> {
+    inner: DecodeReaderBytes<R, Vec<u8>>,
+    // Decoded text not yet handed out. The transcoder is only ever given this whole buffer: with
+    // buffers of a few bytes it loses the end of its output when the input ends.
+    buffer: Vec<u8>,
+    consumed: usize,
+}
 
 impl<R> TextReader<R>
 where
@@ -18,7 +24,11 @@ where
 {
     /// Create a new `TextReader` with the given charset.
     pub fn new(inner: R, charset: Charset) -> Self {
-        Self(DecodeReaderBytesBuilder::new().encoding(Some(charset)).build(inner))
+        Self {
+            inner: DecodeReaderBytesBuilder::new().encoding(Some(charset)).build(inner),
+            buffer: Vec::new(),
+            consumed: 0,
+        }
     }
 }
 
@@ -27,7 +37,20 @@ where
     R: Read,
 {
     fn read(&mut self, buf: &mut [u8]) -> io::Result<usize> {
-        self.0.read(buf)
+        if self.consumed == self.buffer.len() {
+            self.consumed = 0;
+            self.buffer.resize(8 * 1024, 0);
+            match self.inner.read(&mut self.buffer) {
+                Ok(n) => self.buffer.truncate(n),
+                Err(err) => {
+                    self.buffer.clear();
+                    return Err(err);
+                }
+            }
+        }
+        let n = (&self.buffer[self.consumed..]).read(buf)?;
+        self.consumed += n;
+        Ok(n)
     }
 }
 
